@@ -1,6 +1,7 @@
 import SeataModel.Driver.Util
 import SeataModel.XA.Branch
 import SeataModel.XA.Conn
+import SeataModel.XA.Keeper
 namespace Seata.Driver.C17
 open Seata.XA Seata.Driver
 
@@ -56,6 +57,20 @@ def handle (ws : List String) : String :=
       let r := crun cstep {} ops
       let flags := r.2.map fun b => if b then "1" else "0"
       s!"inside={if flags.isEmpty then "-" else ",".intercalate flags}"
+  | "keeper" :: toks =>
+    -- one pooled connection: `b<n>` BeginTx of branch n, `p` prepare, `x` the branch fails in phase one,
+    -- `f<n>` phase two of branch n, `t` a look of the timeout checker after every hold time has expired
+    let parse (t : String) : Option Keeper.Op :=
+      if t == "p" then some .prepare else if t == "x" then some .fail else if t == "t" then some .tick
+      else if t.startsWith "b" then (sdrop t 1).toNat?.map .begin
+      else if t.startsWith "f" then (sdrop t 1).toNat?.map .finish
+      else none
+    match toks.mapM parse with
+    | none => "bad-op"
+    | some ops =>
+      let r := Keeper.run {} ops
+      let ks := (Keeper.kept r).map toString
+      s!"kept={if ks.isEmpty then "-" else ",".intercalate ks} closed={if r.closed then 1 else 0}"
   | ["id", xid, br] =>
     match br.toNat? with
     | none => "bad-id"
